@@ -38,6 +38,11 @@ func (m *confirmMap) store(key []byte, ts time.Time) {
 	buf := make([]byte, 8)
 	binary.BigEndian.PutUint64(buf, uint64(ts.UnixNano()))
 	m.cache.Set(key, buf, 8)
+	if simEnabled {
+		if _, ok := simNow(); ok {
+			m.cache.Wait()
+		}
+	}
 }
 
 type remoteRelayer struct {
